@@ -1254,101 +1254,113 @@ Qed.
 Lemma clear_wf : forall s ob h, obwf ob -> obwf (snd (clear s ob h)).
 Proof. intros s ob h Hb. unfold clear. destruct ob as [b|]; cbn [snd obwf]; auto using clear_kv_wf. Qed.
 
-(* the invariant every reachable state satisfies: the store is key-sorted, the open batch's summary agrees with its log *)
-Definition inv (st : state) : Prop := keys_sorted (st_store st) /\ obwf (st_wtx st).
+(* the invariant every reachable state satisfies: the store (and the store a read transaction captured when it
+   began) is key-sorted, the open batch's summary agrees with its log *)
+Definition osorted (os : option store) : Prop := match os with Some s0 => keys_sorted s0 | None => True end.
+Definition inv (st : state) : Prop := keys_sorted (st_store st) /\ obwf (st_wtx st) /\ osorted (st_rtx st).
 Lemma inv_init : inv init_state.
-Proof. split; cbn; [constructor|exact I]. Qed.
-Lemma tx_view_wf : forall st w ob, inv st -> tx_view st w = Some ob -> obwf ob.
+Proof. split; [constructor|split; exact I]. Qed.
+Lemma tx_view_wf : forall snap st w vs ob, inv st -> tx_view snap st w = Some (vs, ob) -> obwf ob /\ keys_sorted vs.
 Proof.
-  intros st w ob [_ H] E. unfold tx_view in E. destruct w.
-  - destruct (st_wtx st); inversion E; subst. exact H.
-  - destruct (st_rtx st); inversion E; subst. exact I.
+  intros snap st w vs ob [Hs [Hb Hr]] E. unfold tx_view in E. destruct w.
+  - destruct (st_wtx st); inversion E; subst. auto.
+  - destruct (st_rtx st) as [s0|]; inversion E; subst. split; [exact I|]. destruct snap; auto.
 Qed.
-Lemma inv_store_batch : forall st w ob, inv st -> obwf ob -> inv (store_batch st w ob).
-Proof. intros st w ob [H1 H2] Hb. unfold store_batch. destruct w; [split; cbn; auto|split; auto]. Qed.
-
-Lemma step_inv : forall st o, inv st -> inv (fst (step st o)).
+Lemma slot_view_wf : forall snap st src w h vs ob, inv st -> slot_view snap st src = Some (w, h, vs, ob) ->
+  obwf ob /\ keys_sorted vs.
 Proof.
-  intros st o Hinv. pose proof Hinv as [Hs Hb].
-  destruct o; cbn [step].
-  - destruct w; [destruct (st_wtx st); cbn; auto; split; cbn; auto; apply batch_wf_empty|
-                 destruct (st_rtx st); cbn; auto; split; cbn; auto].
+  intros snap st src w h vs ob Hinv E. unfold slot_view in E.
+  destruct (get_slot src (st_bs st)) as [[w' h']|]; [|discriminate].
+  destruct (tx_view snap st w') as [[vs' ob']|] eqn:Ev; [|discriminate]. inversion E; subst.
+  eapply tx_view_wf; eauto.
+Qed.
+Ltac inv3 := split; [|split]; cbn; auto.
+Lemma inv_store_batch : forall st w ob, inv st -> obwf ob -> inv (store_batch st w ob).
+Proof. intros st w ob [H1 [H2 H3]] Hb. unfold store_batch. destruct w; inv3. Qed.
+
+Lemma step_inv : forall snap st o, inv st -> inv (fst (step_gen snap st o)).
+Proof.
+  intros snap st o Hinv. pose proof Hinv as [Hs [Hb Hr]].
+  destruct o; cbn [step_gen].
+  - destruct w.
+    + destruct (st_wtx st); [exact Hinv|]. destruct (st_open st); [|exact Hinv]. inv3. apply batch_wf_empty.
+    + destruct (st_rtx st); [exact Hinv|]. destruct (st_open st); [|exact Hinv]. inv3.
   - destruct (st_wtx st) as [b|] eqn:E; [|exact Hinv]. destruct (st_upd st); [exact Hinv|].
-    split; cbn; auto. apply apply_log_sorted. exact Hs.
-  - destruct (st_wtx st) as [b|] eqn:E; [|exact Hinv]. destruct (st_upd st); [exact Hinv|]. split; cbn; auto.
-  - destruct (st_rtx st); [|exact Hinv]. split; cbn; auto.
-  - destruct (st_wtx st) as [b|] eqn:E; [exact Hinv|]. split; cbn; auto. apply batch_wf_empty.
+    inv3. apply apply_log_sorted. exact Hs.
+  - destruct (st_wtx st) as [b|] eqn:E; [|exact Hinv]. destruct (st_upd st); [exact Hinv|]. inv3.
+  - destruct (st_rtx st); [|exact Hinv]. inv3.
+  - destruct (st_wtx st) as [b|] eqn:E; [exact Hinv|]. destruct (st_open st); [|exact Hinv].
+    inv3. apply batch_wf_empty.
   - destruct (st_wtx st) as [b|] eqn:E; [|exact Hinv]. destruct (st_upd st); [|exact Hinv].
-    destruct fail; split; cbn; auto. apply apply_log_sorted. exact Hs.
-  - destruct (st_wtx st); [exact Hinv|]. destruct (st_rtx st); exact Hinv.
-  - exact Hinv.
-  - destruct (tx_view st w) as [ob|]; [|exact Hinv]. unfold put_handle.
-    destruct (top_level_bucket (st_store st) ob name); split; cbn; auto.
+    destruct fail; inv3. apply apply_log_sorted. exact Hs.
+  - destruct (st_wtx st) eqn:Ew; [exact Hinv|]. destruct (st_rtx st) eqn:Er; [exact Hinv|]. destruct (st_open st); [|exact Hinv].
+    inv3; rewrite ?Ew, ?Er; exact I.
+  - destruct (st_wtx st) eqn:Ew; [exact Hinv|]. destruct (st_rtx st) eqn:Er; [exact Hinv|]. inv3; rewrite ?Ew, ?Er; exact I.
+  - destruct (st_open st); exact Hinv.
+  - destruct (tx_view snap st w) as [[vs ob]|]; [|exact Hinv]. unfold put_handle.
+    destruct (top_level_bucket vs ob name); inv3.
   - destruct (st_wtx st) as [b|] eqn:E; [|exact Hinv]. cbn in Hb.
     pose proof (create_top_level_wf (st_store st) b name Hb) as H.
-    destruct (create_top_level (st_store st) b name) as [[h|e] b']; cbn [snd] in H; split; cbn; auto.
+    destruct (create_top_level (st_store st) b name) as [[h|e] b']; cbn [snd] in H; inv3.
   - destruct (st_wtx st); exact Hinv.
-  - destruct (tx_view st w) as [ob|]; [|exact Hinv]. destruct (tx_bucket_names (st_store st) ob); exact Hinv.
-  - destruct (tx_view st w) as [ob|]; [|exact Hinv]. destruct (get_slot src (st_bs st)) as [[w' h]|]; [|exact Hinv].
-    unfold put_handle. destruct (fetch_bucket (st_store st) ob h); split; cbn; auto.
-  - destruct (get_slot src (st_bs st)) as [[w h]|]; [|exact Hinv].
-    destruct (tx_view st w) as [ob|] eqn:Ev; [|exact Hinv].
-    pose proof (new_bucket_wf (st_store st) ob h name (tx_view_wf _ _ _ Hinv Ev)) as H.
-    destruct (new_bucket (st_store st) ob h name) as [[sub|e] ob']; cbn [snd] in H.
-    + pose proof (inv_store_batch st w ob' Hinv H) as [H1 H2]. split; cbn; auto.
+  - destruct (tx_view snap st w) as [[vs ob]|]; [|exact Hinv]. destruct (tx_bucket_names vs ob); exact Hinv.
+  - destruct (tx_view snap st w) as [[vs ob]|]; [|exact Hinv]. destruct (get_slot src (st_bs st)) as [[w' h]|]; [|exact Hinv].
+    unfold put_handle. destruct (fetch_bucket vs ob h); inv3.
+  - destruct (slot_view snap st src) as [[[[w h] vs] ob]|] eqn:Ev; [|exact Hinv].
+    destruct (slot_view_wf _ _ _ _ _ _ _ Hinv Ev) as [Hob _].
+    pose proof (new_bucket_wf vs ob h name Hob) as H.
+    destruct (new_bucket vs ob h name) as [[sub|e] ob']; cbn [snd] in H.
+    + pose proof (inv_store_batch st w ob' Hinv H) as [H1 [H2 H3]]. inv3.
     + apply inv_store_batch; auto.
-  - destruct (get_slot src (st_bs st)) as [[w h]|]; [|exact Hinv].
-    destruct (tx_view st w) as [ob|]; [|exact Hinv]. unfold put_handle.
-    destruct (bucket (st_store st) ob h name); split; cbn; auto.
-  - destruct (get_slot src (st_bs st)) as [[w h]|]; [|exact Hinv].
-    destruct (tx_view st w) as [ob|] eqn:Ev; [|exact Hinv].
-    pose proof (delete_bucket_wf (st_store st) ob h name (tx_view_wf _ _ _ Hinv Ev)) as H.
-    destruct (delete_bucket (st_store st) ob h name) as [r ob']; cbn [snd fst] in *. apply inv_store_batch; auto.
-  - destruct (get_slot src (st_bs st)) as [[w h]|]; [|exact Hinv].
-    destruct (tx_view st w) as [ob|]; [|exact Hinv]. destruct (bucket_names (st_store st) ob h); exact Hinv.
-  - destruct (get_slot src (st_bs st)) as [[w h]|]; [|exact Hinv].
-    destruct (tx_view st w) as [ob|] eqn:Ev; [|exact Hinv].
-    pose proof (bucket_put_wf ob h k v (tx_view_wf _ _ _ Hinv Ev)) as H.
+  - destruct (slot_view snap st src) as [[[[w h] vs] ob]|]; [|exact Hinv]. unfold put_handle.
+    destruct (bucket vs ob h name); inv3.
+  - destruct (slot_view snap st src) as [[[[w h] vs] ob]|] eqn:Ev; [|exact Hinv].
+    destruct (slot_view_wf _ _ _ _ _ _ _ Hinv Ev) as [Hob _].
+    pose proof (delete_bucket_wf vs ob h name Hob) as H.
+    destruct (delete_bucket vs ob h name) as [r ob']; cbn [snd fst] in *. apply inv_store_batch; auto.
+  - destruct (slot_view snap st src) as [[[[w h] vs] ob]|]; [|exact Hinv]. destruct (bucket_names vs ob h); exact Hinv.
+  - destruct (slot_view snap st src) as [[[[w h] vs] ob]|] eqn:Ev; [|exact Hinv].
+    destruct (slot_view_wf _ _ _ _ _ _ _ Hinv Ev) as [Hob _].
+    pose proof (bucket_put_wf ob h k v Hob) as H.
     destruct (bucket_put ob h k v) as [r ob']; cbn [snd fst] in *. apply inv_store_batch; auto.
-  - destruct (get_slot src (st_bs st)) as [[w h]|]; [|exact Hinv].
-    destruct (tx_view st w) as [ob|] eqn:Ev; [|exact Hinv].
-    pose proof (bucket_delete_wf ob h k (tx_view_wf _ _ _ Hinv Ev)) as H.
+  - destruct (slot_view snap st src) as [[[[w h] vs] ob]|] eqn:Ev; [|exact Hinv].
+    destruct (slot_view_wf _ _ _ _ _ _ _ Hinv Ev) as [Hob _].
+    pose proof (bucket_delete_wf ob h k Hob) as H.
     destruct (bucket_delete ob h k) as [r ob']; cbn [snd fst] in *. apply inv_store_batch; auto.
-  - destruct (get_slot src (st_bs st)) as [[w h]|]; [|exact Hinv].
-    destruct (tx_view st w) as [ob|]; [|exact Hinv]. destruct (bucket_get (st_store st) ob h k); exact Hinv.
-  - destruct (get_slot src (st_bs st)) as [[w h]|]; [|exact Hinv].
-    destruct (tx_view st w) as [ob|] eqn:Ev; [|exact Hinv].
-    pose proof (clear_wf (st_store st) ob h (tx_view_wf _ _ _ Hinv Ev)) as H.
-    destruct (clear (st_store st) ob h) as [r ob']; cbn [snd fst] in *. apply inv_store_batch; auto.
-  - destruct (get_slot src (st_bs st)) as [[w h]|]; [|exact Hinv].
-    destruct (tx_view st w) as [ob|]; exact Hinv.
-  - destruct (get_slot src (st_bs st)) as [[w h]|]; [|exact Hinv].
-    destruct (tx_view st w) as [ob|]; [|exact Hinv].
-    destruct (match mode with O => _ | S _ => _ end) as [a l]. split; cbn; auto.
-  - destruct (get_slot i (st_is st)) as [[w it]|]; [|exact Hinv]. destruct (iter_seek it k). split; cbn; auto.
-  - destruct (get_slot i (st_is st)) as [[w it]|]; [|exact Hinv]. destruct (iter_next it). split; cbn; auto.
-  - destruct (get_slot i (st_is st)) as [[w it]|]; [|exact Hinv]. split; cbn; auto.
+  - destruct (slot_view snap st src) as [[[[w h] vs] ob]|]; [|exact Hinv]. destruct (bucket_get vs ob h k); exact Hinv.
+  - destruct (slot_view snap st src) as [[[[w h] vs] ob]|] eqn:Ev; [|exact Hinv].
+    destruct (slot_view_wf _ _ _ _ _ _ _ Hinv Ev) as [Hob _].
+    pose proof (clear_wf vs ob h Hob) as H.
+    destruct (clear vs ob h) as [r ob']; cbn [snd fst] in *. apply inv_store_batch; auto.
+  - destruct (slot_view snap st src) as [[[[w h] vs] ob]|]; exact Hinv.
+  - destruct (slot_view snap st src) as [[[[w h] vs] ob]|]; [|exact Hinv].
+    destruct (match mode with O => _ | S _ => _ end) as [a l]. inv3.
+  - destruct (get_slot i (st_is st)) as [[w it]|]; [|exact Hinv]. destruct (iter_seek it k). inv3.
+  - destruct (get_slot i (st_is st)) as [[w it]|]; [|exact Hinv]. destruct (iter_next it). inv3.
+  - destruct (get_slot i (st_is st)) as [[w it]|]; [|exact Hinv]. inv3.
   - destruct (bytes_prefix p). exact Hinv.
 Qed.
 
-Definition run (ops : list op) : state := fold_left (fun st o => fst (step st o)) ops init_state.
+(* running an op sequence; [run] starts from the empty database with the code as it is now *)
+Definition exec (snap : bool) (st : state) (ops : list op) : state := fold_left (fun st o => fst (step_gen snap st o)) ops st.
+Definition run (ops : list op) : state := exec true init_state ops.
+Lemma exec_inv : forall snap ops st, inv st -> inv (exec snap st ops).
+Proof. intros snap. induction ops as [|o ops IH]; intros st Hst; cbn; [exact Hst|]. apply IH. apply step_inv. exact Hst. Qed.
 Lemma run_inv : forall ops, inv (run ops).
-Proof.
-  intros ops. unfold run. assert (H : forall st, inv st -> inv (fold_left (fun st o => fst (step st o)) ops st)).
-  { induction ops as [|o ops IH]; intros st Hst; cbn; auto using step_inv. }
-  apply H. apply inv_init.
-Qed.
+Proof. intros ops. apply exec_inv. apply inv_init. Qed.
 
 Lemma store_batch_store : forall st w ob, st_store (store_batch st w ob) = st_store st.
 Proof. intros st w ob. unfold store_batch. destruct w; reflexivity. Qed.
+Lemma store_batch_rtx : forall st w ob, st_rtx (store_batch st w ob) = st_rtx st.
+Proof. intros st w ob. unfold store_batch. destruct w; reflexivity. Qed.
 
 (* the committed store changes at Commit (or a successful db.Update) only, and then by the whole log at once *)
-Lemma store_changes_only_at_commit : forall st o,
-  st_store (fst (step st o)) = st_store st \/
+Lemma store_changes_only_at_commit : forall snap st o,
+  st_store (fst (step_gen snap st o)) = st_store st \/
   exists b, st_wtx st = Some b /\ (o = OCommit \/ o = OUEnd false) /\
-            st_store (fst (step st o)) = apply_log (st_store st) (b_log b).
+            st_store (fst (step_gen snap st o)) = apply_log (st_store st) (b_log b).
 Proof.
-  intros st o. destruct o; cbn [step];
+  intros snap st o. destruct o; cbn [step_gen];
   repeat match goal with
          | |- context [match ?x with _ => _ end] => destruct x eqn:?
          end; cbn; auto; try (left; apply store_batch_store);
@@ -1356,6 +1368,92 @@ Proof.
        repeat match goal with |- context [match ?x with _ => _ end] => destruct x eqn:? end; cbn; auto; fail).
   - right. eexists. split; [reflexivity|]. split; [left; reflexivity|reflexivity].
   - right. eexists. split; [reflexivity|]. split; [right; reflexivity|reflexivity].
+Qed.
+
+(* ------------------------------------------------------------------ a read transaction reads one snapshot *)
+(* the store a read transaction captured stays with it until it is ended, whatever else happens *)
+Lemma rtx_preserved : forall snap st o s0, st_rtx st = Some s0 -> o <> OREnd ->
+  st_rtx (fst (step_gen snap st o)) = Some s0.
+Proof.
+  intros snap st o s0 Hr Hne. destruct o; try congruence; cbn [step_gen]; rewrite ?Hr;
+  repeat match goal with
+         | |- context [match ?x with _ => _ end] => destruct x eqn:?
+         end; cbn; auto; try (rewrite store_batch_rtx; exact Hr);
+  try (unfold put_handle;
+       repeat match goal with |- context [match ?x with _ => _ end] => destruct x eqn:? end; cbn; auto; fail).
+Qed.
+Lemma exec_rtx_preserved : forall snap ops st s0, st_rtx st = Some s0 -> Forall (fun o => o <> OREnd) ops ->
+  st_rtx (exec snap st ops) = Some s0.
+Proof.
+  intros snap. induction ops as [|o ops IH]; intros st s0 Hr Hf; cbn; auto.
+  inversion Hf; subst. apply IH; auto. apply rtx_preserved; auto.
+Qed.
+(* BeginReadTx captures the store committed at that moment *)
+Lemma begin_read_captures : forall snap st, st_rtx st = None -> st_open st = true ->
+  st_rtx (fst (step_gen snap st (OBegin false))) = Some (st_store st) /\ snd (step_gen snap st (OBegin false)) = ROk.
+Proof. intros snap st Hr Ho. cbn [step_gen]. rewrite Hr, Ho. split; reflexivity. Qed.
+
+(* With the repaired code every read of a read transaction is the model read function applied to the captured store:
+   over ANY interleaving [ops] (commits, Updates, more reads ...) that does not end the read transaction *)
+Lemma read_tx_reads_snapshot : forall st s0 ops, st_rtx st = Some s0 -> Forall (fun o => o <> OREnd) ops ->
+  let st' := exec true st ops in
+  (forall dst name, snd (step st' (OTop false dst name)) =
+                    match top_level_bucket s0 None name with Some _ => ROk | None => RNil end) /\
+  snd (step st' (OTxNames false)) = match tx_bucket_names s0 None with Ok l => RNames l | Err e => RErr e end /\
+  forall src h, get_slot src (st_bs st') = Some (false, h) ->
+    (forall k, snd (step st' (OGet src k)) = match bucket_get s0 None h k with Some v => RVal v | None => RNil end) /\
+    (forall p, snd (step st' (OPfx src p)) = REntries (get_by_prefix s0 None h p)) /\
+    snd (step st' (ONames src)) = match bucket_names s0 None h with Ok l => RNames l | Err e => RErr e end /\
+    (forall dst name, snd (step st' (OBucket dst src name)) = match bucket s0 None h name with Some _ => ROk | None => RNil end) /\
+    (forall dst a l, st_is (fst (step st' (OIter dst src 1 a l))) =
+                     set_nth dst (Some (false, new_iterator s0 None h a l)) (st_is st')).
+Proof.
+  intros st s0 ops Hr Hf st'. pose proof (exec_rtx_preserved true ops st s0 Hr Hf) as Hr'. fold st' in Hr'.
+  assert (Hv : tx_view true st' false = Some (s0, None)) by (unfold tx_view; rewrite Hr'; reflexivity).
+  split; [|split].
+  - intros dst name. unfold step. cbn [step_gen]. rewrite Hv. unfold put_handle. destruct (top_level_bucket s0 None name); reflexivity.
+  - unfold step. cbn [step_gen]. rewrite Hv. destruct (tx_bucket_names s0 None); reflexivity.
+  - intros src h Hslot.
+    assert (Hsv : slot_view true st' src = Some (false, h, s0, None)) by (unfold slot_view; rewrite Hslot, Hv; reflexivity).
+    unfold step. repeat split; intros; cbn [step_gen]; rewrite Hsv.
+    + destruct (bucket_get s0 None h k); reflexivity.
+    + reflexivity.
+    + destruct (bucket_names s0 None h); reflexivity.
+    + unfold put_handle. destruct (bucket s0 None h name); reflexivity.
+    + reflexivity.
+Qed.
+
+(* ... hence it sees exactly the content committed when it began, whatever is committed later *)
+Lemma read_tx_sees_begin_store : forall st s0 ops, inv st -> st_rtx st = Some s0 -> Forall (fun o => o <> OREnd) ops ->
+  let st' := exec true st ops in
+  forall src h, get_slot src (st_bs st') = Some (false, h) ->
+    (forall k, k <> [] -> snd (step st' (OGet src k)) =
+                          match s_get (inner_key (h_path h) k) s0 with Some v => RVal v | None => RNil end) /\
+    (keys_bytes s0 -> bytes_ok (h_path h) -> forall p, bytes_ok p ->
+       exists l, snd (step st' (OPfx src p)) = REntries l /\
+                 forall k v, In (k, v) l <-> has_prefix p k = true /\ s_get (inner_key (h_path h) k) s0 = Some v).
+Proof.
+  intros st s0 ops Hinv Hr Hf st' src h Hslot.
+  destruct (read_tx_reads_snapshot st s0 ops Hr Hf) as [_ [_ H]]. fold st' in H.
+  destruct (H src h Hslot) as [Hg [Hp _]]. split.
+  - intros k Hk. rewrite Hg, read_only_get by exact Hk. reflexivity.
+  - intros Hkb Hpath p Hpb. exists (get_by_prefix s0 None h p). split; [apply Hp|].
+    apply read_only_prefix; auto. destruct Hinv as [_ [_ Hs0]]. rewrite Hr in Hs0. exact Hs0.
+Qed.
+
+(* the code as first found (snap = false): two executions of the same read inside one read transaction, with no
+   end of that transaction in between, answer differently — a commit in between is seen *)
+Definition refute_pre : list op := [OBegin true; OCreateTop 0 [97]; OCommit; OBegin false; OTop false 1 [97]].
+Definition refute_mid : list op := [OBegin true; OTop true 0 [97]; OPut 0 [107] [118]; OCommit].
+Lemma unrepaired_read_tx_refuted :
+  exists pre mid o,
+    st_rtx (exec false init_state pre) <> None /\ Forall (fun o => o <> OREnd) mid /\
+    snd (step_unrepaired (exec false init_state pre) o) <> snd (step_unrepaired (exec false init_state (pre ++ mid)) o) /\
+    snd (step (exec true init_state pre) o) = snd (step (exec true init_state (pre ++ mid)) o).
+Proof.
+  exists refute_pre, refute_mid, (OGet 1 [107]). split; [vm_compute; discriminate|]. split.
+  - repeat constructor; discriminate.
+  - split; vm_compute; [discriminate|reflexivity].
 Qed.
 
 (* ------------------------------------------------------------------ prefix reads return every key once *)
